@@ -50,7 +50,9 @@ claim('C12', 'proof',
       'For the generated closest-point kernels of segments, rays, infinite lines (2D/3D), planes, '
       'line-plane pairs and arcs: the result lies on the object, minimises the squared distance '
       'over the whole object (convexity argument, all inputs), is zero exactly for queries on '
-      'the object and is non-expansive; distances are 1-Lipschitz under the sqrt laws. '
+      'the object and is non-expansive; distances are 1-Lipschitz under the sqrt laws '
+      '(segments, planes, and in Props/C12h the generated Ray2D/Ray3D.distance_to_point: '
+      'non-negative, zero iff on the ray, lower bound over the ray, attained, 1-Lipschitz). '
       'Model/PolyDistance: edge distance = sqrt of the minimum over the whole outline, invariant '
       'under start vertex and reversal, 1-Lipschitz; distance_to_point is 0 where the crossing '
       'test says inside; the signed cell distance of polylabel is 1-Lipschitz across the outline '
